@@ -100,6 +100,9 @@ def materialise(case):
         # the same annotation listed twice (exact duplicate, as plasmid editors export them)
         import copy
         feats.insert(rdup.randint(0, len(feats)), copy.deepcopy(rdup.choice(feats)))
+    if rdup.random() < 0.12:
+        # a feature without any location, somewhere in the table (after a located one, so that a stale location would show)
+        feats.insert(rdup.randint(0, len(feats)), {"type": "unlocated", "parts": None, "quals": {"uid": ["noloc"], "note": ["nowhere"]}})
     letters = {}
     if rng.random() < 0.7:
         letters["q"] = list(range(100, 100 + n))
